@@ -107,7 +107,10 @@ static struct event_base *vp_iobase_new(const struct eventop *ops, int flags, in
 static void vp_ioev_init(struct event *ev, struct event_base *base, int fd, short events)
 {
 	memset(ev, 0, sizeof(*ev));
-	ev->ev_base = base;
+	/* ev_base stays NULL on purpose: evmap.c and the back ends never read it, and cbmc's value sets are
+	 * not field-sensitive across struct event's union, so a stored base pointer makes every
+	 * LIST_REMOVE through ev->..le_prev a potential write into the whole event_base (measured: OOM) */
+	(void)base;
 	ev->ev_fd = fd;
 	ev->ev_events = events;
 	ev->ev_flags = EVLIST_INIT;
